@@ -612,6 +612,8 @@ type Concurrent struct {
 	Instances int    `json:"instances"`
 	Rounds    int    `json:"rounds"`
 	WarmUp    int    `json:"warmUp"` // sequential rounds before the concurrent ones (few: capacity is still being contended)
+	// SameInstance: some instances send two overlapping reports (a busy one and an idle one) in a round
+	SameInstance bool `json:"sameInstance"`
 }
 
 func runConcurrent(c *rig.Ctx, cc Concurrent) bool {
@@ -635,22 +637,36 @@ func runConcurrent(c *rig.Ctx, cc Concurrent) bool {
 	}
 	l.SetClients(ids)
 	last := make([]int32, cc.Instances)
-	report := func(i int) {
+	var lastMu sync.Mutex
+	// busy: the instance uses its whole quota and wants more; idle: it uses nothing (its quota shrinks). Both report the quota
+	// the instance holds at the moment the report is built.
+	reportAs := func(i int, busy bool) {
+		lastMu.Lock()
+		claim := last[i]
+		lastMu.Unlock()
+		used, level := claim, int32(100)
+		if !busy {
+			used, level = 0, 0
+		}
 		cond := &proxyv1alpha1.RateLimitCondition{ObjectMeta: metav1.ObjectMeta{Name: condName(i)},
 			Spec: proxyv1alpha1.RateLimitSpec{UpstreamCluster: "up", Instance: instName(i),
-				LimitItemConfigurations: []proxyv1alpha1.RateLimitItemConfiguration{{Name: "s", Strategy: proxyv1alpha1.GlobalAllocateLimit, LimitItemDetail: detail(false, last[i], 0)}}},
-			Status: proxyv1alpha1.RateLimitStatus{LimitItemStatuses: []proxyv1alpha1.RateLimitItemStatus{{Name: "s", LimitItemDetail: detail(false, last[i], 0), RequestLevel: 100}}}}
+				LimitItemConfigurations: []proxyv1alpha1.RateLimitItemConfiguration{{Name: "s", Strategy: proxyv1alpha1.GlobalAllocateLimit, LimitItemDetail: detail(false, claim, 0)}}},
+			Status: proxyv1alpha1.RateLimitStatus{LimitItemStatuses: []proxyv1alpha1.RateLimitItemStatus{{Name: "s", LimitItemDetail: detail(false, used, 0), RequestLevel: level}}}}
 		rig.Recover(func() {
 			res, err := l.Limiter().UpdateRateLimitConditionStatus("up", cond)
 			if err == nil {
 				for _, it := range res.Spec.LimitItemConfigurations {
 					if it.Name == "s" {
-						last[i], _ = quotaOf(it.LimitItemDetail)
+						q, _ := quotaOf(it.LimitItemDetail)
+						lastMu.Lock()
+						last[i] = q
+						lastMu.Unlock()
 					}
 				}
 			}
 		})
 	}
+	report := func(i int) { reportAs(i, true) }
 	recorded := func() ([][2]int64, int64) {
 		qs, sum := [][2]int64{}, int64(0)
 		for _, cd := range l.Store.ListUpstream("up") {
@@ -690,6 +706,11 @@ func runConcurrent(c *rig.Ctx, cc Concurrent) bool {
 					report(i)
 				}
 			}(i)
+			if cc.SameInstance && i%3 == 0 {
+				// a second report of the SAME instance overlapping the first (a retry after a lost answer): this one idle
+				wg.Add(1)
+				go func(i int) { defer wg.Done(); <-start; reportAs(i, false) }(i)
+			}
 		}
 		close(start)
 		wg.Wait()
@@ -772,7 +793,7 @@ func main() {
 		// concurrent overlap of honest reports on both stores (the judge is the history invariant at quiescence)
 		// (quotas only move while the schema fills up, so every trial starts from an empty record)
 		for i, n := 0, c.Budget(200, 3000); i < n && !c.Stop(); i++ {
-			cc := Concurrent{Kind: "concurrent", Store: []string{"local", "k8s"}[i%2], Total: rig.Pick(c.Rng, []int32{300, 1000, 5000}), Instances: 4 + c.Rng.Intn(13), Rounds: 12, WarmUp: c.Rng.Intn(3)}
+			cc := Concurrent{Kind: "concurrent", Store: []string{"local", "k8s"}[i%2], Total: rig.Pick(c.Rng, []int32{300, 1000, 5000}), Instances: 4 + c.Rng.Intn(13), Rounds: 12, WarmUp: c.Rng.Intn(3), SameInstance: i%4 >= 2}
 			c.Case(rig.Canon(cc)+fmt.Sprint(i), true, "concurrent:"+cc.Store, func() interface{} { return cc })
 			c.Trace()
 			runConcurrent(c, cc)
